@@ -88,6 +88,11 @@ RULE = (
     "empty lists, zero normalisation sum, equal rates.  A subset goes through simulate + optimize and the result "
     "dataset is checked.  Zero / equal stream: parallel and sequential megacomplexes with 1..6 compartments whose rates contain "
     "a zero at the end / start / anywhere, two zeros, two equal rates, equal rates and a zero, all zeros (dyadic or six decades).  "
+    "Time-unit stream: decay / parallel / sequential cases on measured-looking ascending time axes with 3..34 points (equidistant "
+    "from 0 or from an offset, fine steps followed by coarse steps, two blocks with a gap, log-spaced, jittered, one gap, "
+    "geometrically drifting step), the whole experiment written in a unit of time u in {1, 1e-3, 1e-6, 1e-9, 1e-12, 1e-15, 1e3} "
+    "(powers of two 2^-50 .. 2^10 in the exact regime): times * u, every rate constant / u, so that the steps of the axis are as "
+    "small as 1e-17 or as large as 1e3 while K t is unchanged; every point is judged against expm(K t) j and by the model.  "
     "Reversed-eig stream: decay / parallel cases with scipy.linalg.eig wrapped to reverse the eigenvalue order.  Multi stream: "
     "2..5 compartments with non-lexicographic labels in one initial-concentration item (zeros allowed, any subset in "
     "exclude_from_normalize), split over 1..3 decay megacomplexes (chain, parallel, branch, star, with / without loss; sometimes "
@@ -1396,6 +1401,29 @@ def multi_stream(ck, pending, batch, corpus_specs=()):
 # ------------------------------------------------------------------------------------------
 # run / search / replay
 # ------------------------------------------------------------------------------------------
+def time_unit_stream(ck, count, batch):
+    """the same kind of schemes on measured-looking time axes (equidistant, fine-then-coarse, log, jittered, with a gap,
+    drifting step), written in a random unit of time: times * u and every rate constant / u with u from 1e-15 to 1e3 —
+    exp(K t) j does not depend on the unit, so the oracle (scipy / mpmath expm on K t) judges every point of the axis"""
+    for _ in range(count):
+        spec = G.rand_time_unit_spec(ck.rng)
+        if spec is None:
+            ck.count("generator:gave-up")
+            continue
+        check_case(ck, spec, batch)
+        ck.count("stream:time-unit")
+        _, shape, unit = spec["tag"].split("/")[:3]
+        ck.count("time-unit:axis=" + shape)
+        ck.count("time-unit:unit=" + unit)
+        d = np.diff(np.asarray(spec["times"], dtype=float))
+        regular = bool(d.size) and float(np.max(np.abs(d - d[0]))) <= 1e-9 * float(np.max(np.abs(d)))
+        ck.count("time-unit:" + ("equidistant" if regular else "irregular") + (":steps-below-1e-8" if d.size and float(np.max(d)) < 1e-8 else ""))
+        ck.count(f"time-unit:points={len(spec['times'])}")
+        if len(batch) >= 60:
+            flush(ck, batch)
+    flush(ck, batch)
+
+
 def gen_case(rng, i):
     r = i % 10
     if r < 6:
@@ -1533,6 +1561,7 @@ def run(ck):
     permutation_stream(ck, ck.n(8, 120), batch)
     flush(ck, batch)
     zero_equal_stream(ck, ck.n(160, 4000), batch)
+    time_unit_stream(ck, ck.n(200, 4000), batch)
     eig_order_probe(ck, batch)
     unit_stream(ck, ck.n(300, 4000))
     # result datasets
@@ -1591,6 +1620,15 @@ def search(ck):
         obs = observe(spec)
         oracle(ck, spec, obs)
         simple_megacomplex_oracle(ck, spec, obs)
+        if ck.violations:
+            return
+    for i in range(ck.n(400, 3000)):
+        spec = G.rand_time_unit_spec(ck.rng)
+        if spec is None:
+            continue
+        obs = observe(spec)
+        oracle(ck, spec, obs)
+        equivalence_oracle(ck, spec, obs)
         if ck.violations:
             return
     pending, batch = [], []
